@@ -193,11 +193,13 @@ def parse_cbmc_json(txt):
 
 
 def cbmc_run(ctx, files, defines=(), unwind=None, unwindset=(), timeout=120, backend=None, trace=False,
-             extra=(), incs=(), prop=None, mem_kb=None, no_ub=False):
+             extra=(), incs=(), prop=None, mem_kb=None, no_ub=False, no_ptr_overflow=False):
     cmd = ['cbmc'] + list(files) + ['-I' + LIFT] + ['-I' + i for i in incs] + ['-D' + d for d in defines]
     flags = list(CBMC_FLAGS)
     if no_ub:
         flags = [f for f in flags if f not in ('--signed-overflow-check', '--undefined-shift-check', '--pointer-overflow-check', '--div-by-zero-check')]
+    if no_ptr_overflow:
+        flags = [f for f in flags if f != '--pointer-overflow-check']
     cmd += flags + ['--json-ui']
     if unwind is not None:
         cmd += ['--unwind', str(unwind)]
@@ -393,7 +395,7 @@ def incs_for(q):
 def run_query(ctx, q, witness=True):
     """returns dict record; performs witness twin, trace + native replay on failure."""
     rec = {'query': q.name, 'desc': q.desc, 'unwind': q.unwind, 'defines': q.defines, 'expect': q.expect}
-    r = cbmc_run(ctx, files_for(q), q.defines, q.unwind, q.unwindset, q.timeout, q.backend, extra=q.extra, incs=incs_for(q), no_ub=getattr(q, 'no_ub_checks', False))
+    r = cbmc_run(ctx, files_for(q), q.defines, q.unwind, q.unwindset, q.timeout, q.backend, extra=q.extra, incs=incs_for(q), no_ub=getattr(q, 'no_ub_checks', False), no_ptr_overflow=getattr(q, 'no_ptr_overflow', False))
     rec.update(status=r.status, seconds=round(r.seconds, 2), rss_mb=r.rss_kb // 1024, backend=r.backend, properties=r.nprops)
     if r.status == 'inconclusive':
         rec['reason'] = r.reason
@@ -422,7 +424,7 @@ def run_query(ctx, q, witness=True):
             rec['witness_note'] = str(ex_)[:300]
     if r.status == 'pass' and witness:
         # vacuity guard: the twin's final assert(0) must FAIL
-        w = cbmc_run(ctx, files_for(q), q.defines + ['WITNESS'], q.unwind, q.unwindset, q.timeout, q.backend, extra=q.extra, incs=incs_for(q), no_ub=getattr(q, 'no_ub_checks', False))
+        w = cbmc_run(ctx, files_for(q), q.defines + ['WITNESS'], q.unwind, q.unwindset, q.timeout, q.backend, extra=q.extra, incs=incs_for(q), no_ub=getattr(q, 'no_ub_checks', False), no_ptr_overflow=getattr(q, 'no_ptr_overflow', False))
         rec['witness_seconds'] = round(w.seconds, 2)
         ok = w.status == 'fail' and any('WITNESS' in (x[1] or '') for x in w.failed)
         rec['witness'] = 'reached' if ok else 'NOT-REACHED(%s %s)' % (w.status, w.reason)
@@ -433,7 +435,7 @@ def run_query(ctx, q, witness=True):
 
 def replay_failure(ctx, q, rec, slot):
     """re-run with --trace, extract inputs, run natively against the g++ build of the real code."""
-    r = cbmc_run(ctx, files_for(q), q.defines, q.unwind, q.unwindset, max(q.timeout, 300), q.backend, trace=True, extra=q.extra, incs=incs_for(q), no_ub=getattr(q, 'no_ub_checks', False))
+    r = cbmc_run(ctx, files_for(q), q.defines, q.unwind, q.unwindset, max(q.timeout, 300), q.backend, trace=True, extra=q.extra, incs=incs_for(q), no_ub=getattr(q, 'no_ub_checks', False), no_ptr_overflow=getattr(q, 'no_ptr_overflow', False))
     if r.trace_inputs is None:
         rec['replay'] = 'no trace (%s %s)' % (r.status, r.reason)
         return None, False
